@@ -101,8 +101,8 @@ theorem costOK_kidsFixed (fcs tcs : List XTree) (tbl : List (List XScript))
   simp only [List.mem_append, List.mem_map] at hs
   rcases hs with (⟨k, _, rfl⟩ | ⟨k, _, rfl⟩) | ⟨k, _, rfl⟩ <;> simp [-List.getD_eq_getElem?_getD, hT]
 
-theorem costOK_kidsScript (fcs tcs : List XTree) (tbl : List (List XScript))
-    (hT : ∀ i j, ((tbl.getD i []).getD j (xMatch 0)).CostOK) : (kidsScript fcs tcs tbl).CostOK := by
+theorem costOK_kidsScript (o : Opts) (fcs tcs : List XTree) (tbl : List (List XScript))
+    (hT : ∀ i j, ((tbl.getD i []).getD j (xMatch 0)).CostOK) : (kidsScript o fcs tcs tbl).CostOK := by
   unfold kidsScript
   split
   · simp
